@@ -6,31 +6,31 @@
 
 package stun
 
-//@ func nearestPaddedValueLength
+//@ func nearestPaddedValueLength(l)
 //@   safety C01 C02 C03 C04
 //@   props C01 C02 C03 C04
 //@   pure
 //@   requires l >= 0
 //@   ensures result == pad4(l)
 
-//@ func compatAttrType
+//@ func compatAttrType(val)
 //@   safety C01 C02
 //@   props C01 C02
 //@   pure
 //@   ensures result == compat(val)
 
-//@ func IsMessage
+//@ func IsMessage(b)
 //@   safety C01
 //@   props C01
 //@   pure
 //@   ensures result <==> (len(b) >= 20 && be32(b, 4) == 0x2112A442)
 
-//@ func newDecodeErr
+//@ func newDecodeErr(parent, children, message)
 //@   transparent
-//@ func newAttrDecodeErr
+//@ func newAttrDecodeErr(children, message)
 //@   transparent
 
-//@ func (*MessageType).ReadValue
+//@ func (*MessageType).ReadValue(t, v)
 //@   mode bv
 //@   safety C01 C19
 //@   props C01 C02 C03 C19
@@ -39,7 +39,7 @@ package stun
 //@   ensures t.Class == mtype_class(v)
 //@   ensures t.Method == mtype_method(v)
 
-//@ func MessageType.Value
+//@ func MessageType.Value(t)
 //@   mode bv
 //@   safety C19 C03
 //@   props C19 C03
@@ -47,7 +47,7 @@ package stun
 //@   requires t.Method < 4096 && t.Class < 4
 //@   ensures result == mtype(t.Method, t.Class)
 
-//@ func NewType
+//@ func NewType(method, class)
 //@   safety C19
 //@   props C19
 //@   pure
@@ -71,7 +71,7 @@ package stun
 //@   |      m.Attributes[k].Type == compat(be16(m.Raw, start(m.Raw, k)))
 //@   |   && m.Attributes[k].Length == be16(m.Raw, start(m.Raw, k) + 2))
 
-//@ func (*Message).Decode
+//@ func (*Message).Decode(m)
 //@   safety C01 C12
 //@   props C01 C08 C12
 //@   requires m != nil
@@ -108,7 +108,7 @@ package stun
 
 //@ define CopiedInto(m, data) = bytes_eq_old(m.Raw, data) && (region(m.Raw) == old(region(m.Raw)) || fresh(m.Raw))
 
-//@ func Decode
+//@ func Decode(data, m)
 //@   safety C01
 //@   props C01 C08
 //@   assigns *m, mem(m.Raw), mem(m.Attributes)
@@ -120,7 +120,7 @@ package stun
 //@   ensures m != nil ==> (result == nil <==> accept(m.Raw, len(m.Raw)))
 //@   ensures m != nil && result == nil ==> DecodedContent(m)
 
-//@ func (*Message).Write
+//@ func (*Message).Write(m, tBuf)
 //@   safety C01
 //@   props C01 C08
 //@   requires m != nil
@@ -133,7 +133,7 @@ package stun
 //@   ensures result1 == nil <==> accept(m.Raw, len(m.Raw))
 //@   ensures result1 == nil ==> DecodedContent(m)
 
-//@ func (*Message).UnmarshalBinary
+//@ func (*Message).UnmarshalBinary(m, data)
 //@   safety C01
 //@   props C01 C08
 //@   requires m != nil
@@ -145,7 +145,7 @@ package stun
 //@   ensures result == nil <==> accept(m.Raw, len(m.Raw))
 //@   ensures result == nil ==> DecodedContent(m)
 
-//@ func (*Message).GobDecode
+//@ func (*Message).GobDecode(m, data)
 //@   safety C01
 //@   props C01 C08
 //@   requires m != nil
@@ -157,7 +157,7 @@ package stun
 //@   ensures result == nil <==> accept(m.Raw, len(m.Raw))
 //@   ensures result == nil ==> DecodedContent(m)
 
-//@ func (*Message).CloneTo
+//@ func (*Message).CloneTo(m, b)
 //@   safety C01
 //@   props C01 C08
 //@   requires m != nil && b != nil
@@ -169,7 +169,7 @@ package stun
 //@   ensures result == nil <==> accept(b.Raw, len(b.Raw))
 //@   ensures result == nil ==> DecodedContent(b)
 
-//@ func (*Message).ReadFrom
+//@ func (*Message).ReadFrom(m, r)
 //@   safety C01 C12
 //@   props C01 C12
 //@   requires m != nil && r != nil
@@ -185,7 +185,7 @@ package stun
 
 //@ define First(a, t) = firstidx(fieldslice(a, Type), t)
 
-//@ func Attributes.Get
+//@ func Attributes.Get(a, t)
 //@   safety C02 C07
 //@   props C02 C07
 //@   pure
@@ -195,7 +195,7 @@ package stun
 //@     invariant -1 <= rangeindex && forall(j, 0, rangeindex+1, a[j].Type != t)
 //@     decreases len(a) - rangeindex
 
-//@ func (*Message).Get
+//@ func (*Message).Get(m, t)
 //@   safety C02 C07
 //@   props C02 C07
 //@   pure
@@ -205,7 +205,7 @@ package stun
 //@   ensures result1 == nil ==> sameslice(result0, m.Attributes[First(m.Attributes, t)].Value)
 //@   ensures result1 != nil ==> result1 == ErrAttributeNotFound && result0 == nil
 
-//@ func (*Message).Contains
+//@ func (*Message).Contains(m, t)
 //@   safety C02
 //@   props C02
 //@   pure
@@ -231,7 +231,7 @@ package stun
 //@   allocates
 //@   ensures result == nil <==> got <= maxVal
 
-//@ func checkHMAC
+//@ func checkHMAC(got, expected)
 //@   safety C04 C07
 //@   props C04 C07
 //@   pure
@@ -239,14 +239,14 @@ package stun
 //@   ensures result == nil ==> bytes_eq(got, expected)
 //@   ensures bytes_eq(got, expected) ==> result == nil
 
-//@ func checkFingerprint
+//@ func checkFingerprint(got, expected)
 //@   safety C05 C07
 //@   props C05 C07
 //@   pure
 //@   allocates
 //@   ensures result == nil <==> got == expected
 
-//@ func FingerprintValue
+//@ func FingerprintValue(b)
 //@   safety C05 C07
 //@   props C05 C07
 //@   pure
@@ -257,7 +257,7 @@ package stun
 //@ define Has(m, t) = First(m.Attributes, t) < len(m.Attributes)
 //@ define AttrVal(m, t) = m.Attributes[First(m.Attributes, t)].Value
 
-//@ func (*XORMappedAddress).GetFromAs
+//@ func (*XORMappedAddress).GetFromAs(a, msg, attr)
 //@   safety C07 C06
 //@   props C07
 //@   requires a != nil && msg != nil
@@ -282,7 +282,7 @@ package stun
 //@     invariant -1 <= rangeindex && forall(j, 0, rangeindex+1, a.IP[j] == 0)
 //@     decreases len(a.IP) - rangeindex
 
-//@ func (*XORMappedAddress).GetFrom
+//@ func (*XORMappedAddress).GetFrom(a, m)
 //@   safety C07
 //@   props C07
 //@   requires a != nil && m != nil
@@ -291,7 +291,7 @@ package stun
 //@   allocates
 //@   ensures unchanged(m.Raw)
 
-//@ func (*MappedAddress).GetFromAs
+//@ func (*MappedAddress).GetFromAs(a, m, t)
 //@   safety C07 C06
 //@   props C07
 //@   requires a != nil && m != nil
@@ -316,7 +316,7 @@ package stun
 //@     invariant -1 <= rangeindex && forall(j, 0, rangeindex+1, a.IP[j] == 0)
 //@     decreases len(a.IP) - rangeindex
 
-//@ func (*MappedAddress).GetFrom
+//@ func (*MappedAddress).GetFrom(a, m)
 //@   safety C07
 //@   props C07
 //@   requires a != nil && m != nil
@@ -325,7 +325,7 @@ package stun
 //@   allocates
 //@   ensures unchanged(m.Raw)
 
-//@ func (*AlternateServer).GetFrom
+//@ func (*AlternateServer).GetFrom(s, m)
 //@   safety C07
 //@   props C07
 //@   requires s != nil && m != nil
@@ -334,7 +334,7 @@ package stun
 //@   allocates
 //@   ensures unchanged(m.Raw)
 
-//@ func (*ResponseOrigin).GetFrom
+//@ func (*ResponseOrigin).GetFrom(o, m)
 //@   safety C07
 //@   props C07
 //@   requires o != nil && m != nil
@@ -343,7 +343,7 @@ package stun
 //@   allocates
 //@   ensures unchanged(m.Raw)
 
-//@ func (*OtherAddress).GetFrom
+//@ func (*OtherAddress).GetFrom(o, m)
 //@   safety C07
 //@   props C07
 //@   requires o != nil && m != nil
@@ -352,7 +352,7 @@ package stun
 //@   allocates
 //@   ensures unchanged(m.Raw)
 
-//@ func (*TextAttribute).GetFromAs
+//@ func (*TextAttribute).GetFromAs(v, m, t)
 //@   safety C07
 //@   props C07 C06
 //@   requires v != nil && m != nil
@@ -361,28 +361,28 @@ package stun
 //@   ensures result == nil ==> sameslice(*v, m.Attributes[First(m.Attributes, t)].Value)
 //@   ensures result != nil ==> sameslice(*v, old(*v))
 
-//@ func (*Username).GetFrom
+//@ func (*Username).GetFrom(u, m)
 //@   safety C07
 //@   props C07
 //@   requires u != nil && m != nil
 //@   assigns *u
-//@ func (*Realm).GetFrom
+//@ func (*Realm).GetFrom(n, m)
 //@   safety C07
 //@   props C07
 //@   requires n != nil && m != nil
 //@   assigns *n
-//@ func (*Nonce).GetFrom
+//@ func (*Nonce).GetFrom(n, m)
 //@   safety C07
 //@   props C07
 //@   requires n != nil && m != nil
 //@   assigns *n
-//@ func (*Software).GetFrom
+//@ func (*Software).GetFrom(s, m)
 //@   safety C07
 //@   props C07
 //@   requires s != nil && m != nil
 //@   assigns *s
 
-//@ func (*ErrorCodeAttribute).GetFrom
+//@ func (*ErrorCodeAttribute).GetFrom(c, m)
 //@   safety C07 C06
 //@   props C07
 //@   requires c != nil && m != nil
@@ -393,7 +393,7 @@ package stun
 //@   ensures result == nil ==> sameslice(c.Reason, AttrVal(m, 0x0009)[4:])
 //@   props C07
 
-//@ func (*UnknownAttributes).GetFrom
+//@ func (*UnknownAttributes).GetFrom(a, m)
 //@   safety C07 C06
 //@   props C07
 //@   requires a != nil && m != nil
@@ -414,7 +414,7 @@ package stun
 
 // ---- checkers ----
 
-//@ func newHMAC
+//@ func newHMAC(key, message, buf)
 //@   safety C04 C18
 //@   props C04 C18
 //@   uses hmacsha1_def
@@ -426,9 +426,9 @@ package stun
 //@   ensures forall(i, 0, len(buf), result[i] == old(buf[i]))
 //@   ensures forall(i, 0, 20, result[len(buf)+i] == macbyte(old(hmacsha1(key, message)), i))
 
-//@ func (*Message).WriteLength
+//@ func (*Message).WriteLength(m)
 //@   transparent
-//@ func (*Message).grow
+//@ func (*Message).grow(m, n)
 //@   transparent
 
 // MIValid(msg, key): RFC 5389 section 15.4 - the first MESSAGE-INTEGRITY value is 20 bytes and equals HMAC-SHA1(key, the
@@ -437,7 +437,7 @@ package stun
 //@ define MIValid(msg, key) = len(AttrVal(msg, 8)) == 20
 //@   | && forall(j, 0, 20, AttrVal(msg, 8)[j] == macbyte(hmacsha1(key, setbe16(msg.Raw[:MIStart(msg)], 2, MIStart(msg) + 4)), j))
 
-//@ func MessageIntegrity.Check
+//@ func MessageIntegrity.Check(i, msg)
 //@   safety C07 C04
 //@   props C07 C04
 //@   requires msg != nil && DecodedViews(msg) && DecodedContent(msg) && region(i) != region(msg.Raw)
@@ -467,7 +467,7 @@ package stun
 // last 8 bytes of the raw message, XOR 0x5354554e.
 //@ define FPValid(m) = len(AttrVal(m, 0x8028)) == 4 && be32(AttrVal(m, 0x8028), 0) == xor32(crc32(m.Raw[:len(m.Raw) - 8]), 0x5354554e)
 
-//@ func FingerprintAttr.Check
+//@ func FingerprintAttr.Check(arg0, m)
 //@   safety C07 C05
 //@   props C07
 //@   requires m != nil && DecodedViews(m)
@@ -517,7 +517,7 @@ package stun
 // its destination as in re-encoding); only then is the appended value guaranteed to equal val's old bytes.
 //@ define NoClobber(m, val) = region(val) != region(m.Raw) || off(val) + len(val) <= off(m.Raw) + 20 + m.Length || off(val) == off(m.Raw) + 20 + m.Length + 4
 
-//@ func (*Message).Add
+//@ func (*Message).Add(m, attrType, val)
 //@   safety C03 C08 C09
 //@   props C03 C08 C09 C06 C04 C05
 //@   requires CanAdd(m, val)
@@ -529,10 +529,10 @@ package stun
 //@     invariant -1 <= rangeindex && forall(j, 0, rangeindex+1, buf[j] == 0)
 //@     decreases len(buf) - rangeindex
 
-//@ func AttrType.Value
+//@ func AttrType.Value(t)
 //@   transparent
 
-//@ func (*Message).WriteType
+//@ func (*Message).WriteType(m)
 //@   transparent
 
 //@ define TypeOK(m) = m.Type.Method < 4096 && m.Type.Class < 4
@@ -543,7 +543,7 @@ package stun
 //@   | && be16(m.Raw, 0) == mtype(m.Type.Method, m.Type.Class) && TypeOK(m)
 //@   | && forall(j, 0, 12, m.Raw[8+j] == m.TransactionID[j])
 
-//@ func (*Message).Reset
+//@ func (*Message).Reset(m)
 //@   safety C03 C08
 //@   props C03 C08 C09
 //@   requires m != nil
@@ -552,7 +552,7 @@ package stun
 //@   ensures region(m.Raw) == old(region(m.Raw)) && off(m.Raw) == old(off(m.Raw)) && cap(m.Raw) == old(cap(m.Raw))
 //@   ensures region(m.Attributes) == old(region(m.Attributes)) && off(m.Attributes) == old(off(m.Attributes)) && cap(m.Attributes) == old(cap(m.Attributes))
 
-//@ func (*Message).WriteHeader
+//@ func (*Message).WriteHeader(m)
 //@   safety C03 C08
 //@   props C03 C08 C09
 //@   requires m != nil && TypeOK(m)
@@ -564,7 +564,7 @@ package stun
 //@   ensures forall(j, 0, 12, m.Raw[8+j] == m.TransactionID[j])
 //@   ensures forall(i, 20, old(len(m.Raw)), m.Raw[i] == old(m.Raw[i]))
 
-//@ func (*Message).SetType
+//@ func (*Message).SetType(m, t)
 //@   safety C03
 //@   props C03
 //@   requires m != nil && t.Method < 4096 && t.Class < 4
@@ -575,28 +575,28 @@ package stun
 //@   ensures be16(m.Raw, 0) == mtype(t.Method, t.Class)
 //@   ensures forall(i, 2, old(len(m.Raw)), m.Raw[i] == old(m.Raw[i]))
 
-//@ func (*Message).WriteTransactionID
+//@ func (*Message).WriteTransactionID(m)
 //@   safety C03
 //@   props C03
 //@   requires m != nil && cap(m.Raw) >= 20
 //@   assigns m.Raw[8:20]
 //@   ensures forall(j, 0, 12, m.Raw[8+j] == m.TransactionID[j])
 
-//@ func (*Message).AddTo
+//@ func (*Message).AddTo(m, b)
 //@   safety C03
 //@   props C03
 //@   requires m != nil && b != nil && cap(b.Raw) >= 20
 //@   assigns b.TransactionID, b.Raw[8:20]
 //@   ensures result == nil && forall(j, 0, 12, b.Raw[8+j] == old(m.TransactionID[j]) && b.TransactionID[j] == old(m.TransactionID[j]))
 
-//@ func transactionIDValueSetter.AddTo
+//@ func transactionIDValueSetter.AddTo(t, m)
 //@   safety C03
 //@   props C03
 //@   requires m != nil && cap(m.Raw) >= 20
 //@   assigns m.TransactionID, m.Raw[8:20]
 //@   ensures result == nil && forall(j, 0, 12, m.Raw[8+j] == t[j] && m.TransactionID[j] == t[j])
 
-//@ func MessageType.AddTo
+//@ func MessageType.AddTo(t, m)
 //@   safety C03
 //@   props C03
 //@   requires m != nil && t.Method < 4096 && t.Class < 4
@@ -605,7 +605,7 @@ package stun
 //@   ensures result == nil && m.Type.Method == t.Method && m.Type.Class == t.Class && be16(m.Raw, 0) == mtype(t.Method, t.Class)
 //@   ensures len(m.Raw) == max(old(len(m.Raw)), 2) && forall(i, 2, old(len(m.Raw)), m.Raw[i] == old(m.Raw[i]))
 
-//@ func RawAttribute.AddTo
+//@ func RawAttribute.AddTo(a, m)
 //@   safety C03
 //@   props C03
 //@   requires CanAdd(m, a.Value)
@@ -625,7 +625,7 @@ package stun
 //@   ensures result == nil ==> ghost(setter_failed) == 0
 //@   ensures result != nil ==> ghost(setter_failed) == 1 && ghost(setter_err_tag) == errtag(result) && ghost(setter_err_val) == errval(result)
 
-//@ func (*Message).Build
+//@ func (*Message).Build(m, setters)
 //@   safety C03 C09
 //@   props C03 C09
 //@   requires m != nil && TypeOK(m) && ghost(setter_failed) == 0
@@ -643,7 +643,7 @@ package stun
 
 // ---- typed setters (C09: reject iff unrepresentable, fail atomically; C06: RFC wire format) ----
 
-//@ func TextAttribute.AddToAs
+//@ func TextAttribute.AddToAs(v, m, t, maxLen)
 //@   safety C09 C06
 //@   props C09 C06 C03
 //@   requires CanAdd(m, v)
@@ -653,7 +653,7 @@ package stun
 //@   ensures result != nil ==> Unchanged(m)
 //@   ensures result == nil ==> Appended(m, t, v)
 
-//@ func Username.AddTo
+//@ func Username.AddTo(u, m)
 //@   safety C09 C06
 //@   props C09 C06 C03
 //@   requires CanAdd(m, u)
@@ -663,7 +663,7 @@ package stun
 //@   ensures result != nil ==> Unchanged(m)
 //@   ensures result == nil ==> Appended(m, 0x0006, u)
 
-//@ func Realm.AddTo
+//@ func Realm.AddTo(n, m)
 //@   safety C09 C06
 //@   props C09 C06 C03
 //@   requires CanAdd(m, n)
@@ -673,7 +673,7 @@ package stun
 //@   ensures result != nil ==> Unchanged(m)
 //@   ensures result == nil ==> Appended(m, 0x0014, n)
 
-//@ func Nonce.AddTo
+//@ func Nonce.AddTo(n, m)
 //@   safety C09 C06
 //@   props C09 C06 C03
 //@   requires CanAdd(m, n)
@@ -683,7 +683,7 @@ package stun
 //@   ensures result != nil ==> Unchanged(m)
 //@   ensures result == nil ==> Appended(m, 0x0015, n)
 
-//@ func Software.AddTo
+//@ func Software.AddTo(s, m)
 //@   safety C09 C06
 //@   props C09 C06 C03
 //@   requires CanAdd(m, s)
@@ -708,7 +708,7 @@ package stun
 // NewValue(m, j): byte j of the value of the attribute just appended
 //@ define NewValue(m, j) = m.Raw[20 + old(m.Length) + 4 + j]
 
-//@ func ErrorCodeAttribute.AddTo
+//@ func ErrorCodeAttribute.AddTo(c, msg)
 //@   safety C09 C06
 //@   props C09 C06 C03
 //@   requires msg != nil && len(msg.Raw) >= 20 + msg.Length && Fits(msg, 4 + len(c.Reason)) && region(c.Reason) != region(msg.Raw)
@@ -721,7 +721,7 @@ package stun
 //@   ensures result == nil ==> NewValue(msg, 0) == 0 && NewValue(msg, 1) == 0 && NewValue(msg, 2) == c.Code / 100 && NewValue(msg, 3) == c.Code % 100
 //@   ensures result == nil ==> forall(j, 0, len(c.Reason), NewValue(msg, 4 + j) == old(c.Reason[j]))
 
-//@ func isZeros
+//@ func isZeros(p)
 //@   safety C06 C09
 //@   props C06 C09
 //@   pure
@@ -730,7 +730,7 @@ package stun
 //@     invariant 0 <= i && i <= len(p) && forall(j, 0, i, p[j] == 0)
 //@     decreases len(p) - i
 
-//@ func isIPv4
+//@ func isIPv4(ip)
 //@   safety C06 C09
 //@   props C06 C09
 //@   pure
@@ -740,7 +740,7 @@ package stun
 // AddrValue(m, fam, port, ip, n): the appended value is  0 | family | port | ip[0..n)
 //@ define AddrHdr(m, fam, port) = NewValue(m, 0) == 0 && NewValue(m, 1) == fam && NewValue(m, 2) == port / 256 && NewValue(m, 3) == port % 256
 
-//@ func (*MappedAddress).AddToAs
+//@ func (*MappedAddress).AddToAs(a, msg, attrType)
 //@   safety C09 C06
 //@   props C09 C06 C03
 //@   requires a != nil && msg != nil && len(msg.Raw) >= 20 + msg.Length && Fits(msg, 20) && region(a.IP) != region(msg.Raw)
@@ -754,7 +754,7 @@ package stun
 
 //@ define isIPv4spec(ip) = forall(j, 0, 10, ip[j] == 0) && ip[10] == 255 && ip[11] == 255
 
-//@ func XORMappedAddress.AddToAs
+//@ func XORMappedAddress.AddToAs(a, msg, attr)
 //@   safety C09 C06
 //@   props C09 C06 C03
 //@   requires msg != nil && len(msg.Raw) >= 20 + msg.Length && Fits(msg, 20) && region(a.IP) != region(msg.Raw)
@@ -767,7 +767,7 @@ package stun
 //@   ensures result == nil && len(a.IP) == 16 && old(isIPv4spec(a.IP)) ==> AppendedHdr(msg, attr, 8) && AddrHdr(msg, 1, xor16(a.Port, 0x2112)) && forall(j, 0, 4, NewValue(msg, 4+j) == xor8(old(a.IP[12+j]), cookie_tid(msg, j)))
 //@   ensures result == nil && len(a.IP) == 16 && !old(isIPv4spec(a.IP)) ==> AppendedHdr(msg, attr, 20) && AddrHdr(msg, 2, xor16(a.Port, 0x2112)) && forall(j, 0, 16, NewValue(msg, 4+j) == xor8(old(a.IP[j]), cookie_tid(msg, j)))
 
-//@ func XORMappedAddress.AddTo
+//@ func XORMappedAddress.AddTo(a, m)
 //@   safety C09 C06
 //@   props C09 C06 C03
 //@   requires m != nil && len(m.Raw) >= 20 + m.Length && Fits(m, 20) && region(a.IP) != region(m.Raw)
@@ -783,28 +783,28 @@ package stun
 //@   | && (result == nil && len(a.IP) == 4 ==> AppendedHdr(m, t, 8) && AddrHdr(m, 1, uint16(a.Port)) && forall(j, 0, 4, NewValue(m, 4+j) == old(a.IP[j])))
 //@   | && (result == nil && len(a.IP) == 16 && !old(isIPv4spec(a.IP)) ==> AppendedHdr(m, t, 20) && AddrHdr(m, 2, uint16(a.Port)) && forall(j, 0, 16, NewValue(m, 4+j) == old(a.IP[j])))
 
-//@ func (*MappedAddress).AddTo
+//@ func (*MappedAddress).AddTo(a, m)
 //@   safety C09 C06
 //@   props C09 C06 C03
 //@   requires a != nil && m != nil && len(m.Raw) >= 20 + m.Length && Fits(m, 20) && region(a.IP) != region(m.Raw)
 //@   assigns m.Raw, m.Length, m.Attributes, mem(m.Raw), mem(m.Attributes)
 //@   allocates
 //@   ensures MappedAddrSetter(a, m, 0x0001)
-//@ func (*AlternateServer).AddTo
+//@ func (*AlternateServer).AddTo(s, m)
 //@   safety C09 C06
 //@   props C09 C06 C03
 //@   requires s != nil && m != nil && len(m.Raw) >= 20 + m.Length && Fits(m, 20) && region(s.IP) != region(m.Raw)
 //@   assigns m.Raw, m.Length, m.Attributes, mem(m.Raw), mem(m.Attributes)
 //@   allocates
 //@   ensures MappedAddrSetter(s, m, 0x8023)
-//@ func (*ResponseOrigin).AddTo
+//@ func (*ResponseOrigin).AddTo(o, m)
 //@   safety C09 C06
 //@   props C09 C06 C03
 //@   requires o != nil && m != nil && len(m.Raw) >= 20 + m.Length && Fits(m, 20) && region(o.IP) != region(m.Raw)
 //@   assigns m.Raw, m.Length, m.Attributes, mem(m.Raw), mem(m.Attributes)
 //@   allocates
 //@   ensures MappedAddrSetter(o, m, 0x802b)
-//@ func (*OtherAddress).AddTo
+//@ func (*OtherAddress).AddTo(o, m)
 //@   safety C09 C06
 //@   props C09 C06 C03
 //@   requires o != nil && m != nil && len(m.Raw) >= 20 + m.Length && Fits(m, 20) && region(o.IP) != region(m.Raw)
@@ -812,7 +812,7 @@ package stun
 //@   allocates
 //@   ensures MappedAddrSetter(o, m, 0x802C)
 
-//@ func ErrorCode.AddTo
+//@ func ErrorCode.AddTo(c, m)
 //@   safety C09 C06
 //@   props C09 C06 C03
 //@   requires m != nil && len(m.Raw) >= 20 + m.Length && Fits(m, 4 + len(errorReasons[c])) && region(errorReasons[c]) != region(m.Raw)
@@ -825,7 +825,7 @@ package stun
 //@   ensures result == nil ==> forall(j, 0, len(errorReasons[c]), NewValue(m, 4 + j) == old(errorReasons[c][j]))
 
 // RFC 5389 section 15.9: UNKNOWN-ATTRIBUTES is a list of 16-bit attribute types.
-//@ func UnknownAttributes.AddTo
+//@ func UnknownAttributes.AddTo(a, m)
 //@   safety C09 C06
 //@   props C06 C03
 //@   requires m != nil && len(m.Raw) >= 20 + m.Length && Fits(m, 2 * len(a)) && region(a) != region(m.Raw)
@@ -841,7 +841,7 @@ package stun
 
 // ---- signing (C04, C05) ----
 
-//@ func FingerprintAttr.AddTo
+//@ func FingerprintAttr.AddTo(arg0, m)
 //@   safety C05 C03
 //@   props C05 C03 C08
 //@   requires m != nil && len(m.Raw) == 20 + m.Length && Fits(m, 4)
@@ -852,7 +852,7 @@ package stun
 //@   ensures result == nil && AppendedHdr(m, 0x8028, 4)
 //@   ensures be32(m.Raw, len(m.Raw) - 4) == xor32(crc32(m.Raw[:len(m.Raw) - 8]), 0x5354554e)
 
-//@ func MessageIntegrity.AddTo
+//@ func MessageIntegrity.AddTo(i, msg)
 //@   safety C04 C03 C09
 //@   props C04 C03 C09 C08
 //@   requires msg != nil && len(msg.Raw) == 20 + msg.Length && Fits(msg, 20) && region(i) != region(msg.Raw)
@@ -887,7 +887,7 @@ package stun
 //@ define OneEvent(id, err) = ghost(ev_n) == old(ghost(ev_n)) + 1 && gmapa(ev_tid)[old(ghost(ev_n))] == id
 //@   | && gmap(ev_errt)[old(ghost(ev_n))] == errtag(err) && gmap(ev_errv)[old(ghost(ev_n))] == errval(err)
 
-//@ func (*Agent).Start
+//@ func (*Agent).Start(a, id, deadline)
 //@   safety C13 C14 C10
 //@   props C13 C14 C10
 //@   requires AgentInv(a)
@@ -898,7 +898,7 @@ package stun
 //@   ensures !old(a.closed) && !old(haskey(a.transactions, id)) ==> result == nil && haskey(a.transactions, id) && a.transactions[id].deadline == deadline
 //@   ensures !old(a.closed) && !old(haskey(a.transactions, id)) ==> forallkey(k, k != id ==> ((haskey(a.transactions, k) <==> old(haskey(a.transactions, k))) && (haskey(a.transactions, k) ==> a.transactions[k].deadline == old(a.transactions[k].deadline))))
 
-//@ func (*Agent).StopWithError
+//@ func (*Agent).StopWithError(a, id, err)
 //@   safety C13 C14 C10
 //@   props C13 C14 C10
 //@   requires AgentInv(a) && a.closed || AgentInv(a) && a.handler != nil
@@ -909,7 +909,7 @@ package stun
 //@   ensures !old(a.closed) && old(haskey(a.transactions, id)) ==> result == nil && OneEvent(id, err) && !haskey(a.transactions, id)
 //@   ensures !old(a.closed) ==> forallkey(k, k != id ==> ((haskey(a.transactions, k) <==> old(haskey(a.transactions, k))) && (haskey(a.transactions, k) ==> a.transactions[k].deadline == old(a.transactions[k].deadline))))
 
-//@ func (*Agent).Stop
+//@ func (*Agent).Stop(a, id)
 //@   safety C13 C14 C10
 //@   props C13 C14 C10
 //@   requires AgentInv(a) && a.closed || AgentInv(a) && a.handler != nil
@@ -919,7 +919,7 @@ package stun
 //@   ensures !old(a.closed) && !old(haskey(a.transactions, id)) ==> result == ErrTransactionNotExists && SameTable(a) && NoEvent()
 //@   ensures !old(a.closed) && old(haskey(a.transactions, id)) ==> result == nil && OneEvent(id, ErrTransactionStopped) && !haskey(a.transactions, id)
 
-//@ func (*Agent).Process
+//@ func (*Agent).Process(a, m)
 //@   safety C13 C14 C12 C10
 //@   props C13 C14 C12 C10
 //@   requires m != nil && (AgentInv(a) && a.closed || AgentInv(a) && a.handler != nil)
@@ -931,7 +931,7 @@ package stun
 //@   ensures !old(a.closed) ==> !haskey(a.transactions, m.TransactionID)
 //@   ensures !old(a.closed) ==> forallkey(k, k != m.TransactionID ==> ((haskey(a.transactions, k) <==> old(haskey(a.transactions, k))) && (haskey(a.transactions, k) ==> a.transactions[k].deadline == old(a.transactions[k].deadline))))
 
-//@ func (*Agent).SetHandler
+//@ func (*Agent).SetHandler(a, h)
 //@   safety C13 C14
 //@   props C13 C14
 //@   requires AgentInv(a)
@@ -940,13 +940,13 @@ package stun
 //@   ensures old(a.closed) ==> result == ErrAgentClosed && a.handler == old(a.handler)
 //@   ensures !old(a.closed) ==> result == nil && a.handler == h
 
-//@ func NoopHandler
+//@ func NoopHandler()
 //@   props C13
 //@   pure
 //@   allocates
 //@   ensures result != nil
 
-//@ func NewAgent
+//@ func NewAgent(h)
 //@   safety C13 C14
 //@   props C13 C14
 //@   assigns nothing
@@ -959,7 +959,7 @@ package stun
 //@ define ExpiredOld(a, k, t) = old(haskey(a.transactions, k)) && old(a.transactions[k].deadline) < t
 //@ define TimeoutEvent(e) = gmap(ev_errt)[e] == errtag(ErrTransactionTimeOut) && gmap(ev_errv)[e] == errval(ErrTransactionTimeOut)
 
-//@ func (*Agent).Collect
+//@ func (*Agent).Collect(a, gcTime)
 //@   safety C13 C14 C10
 //@   props C13 C14 C10
 //@   requires AgentInv(a) && a.closed || AgentInv(a) && a.handler != nil
@@ -1007,7 +1007,7 @@ package stun
 //@ define HadKey(a, k) = old(haskey(a.transactions, k))
 //@ define ClosedEvent(n) = gmap(ev_errt)[n] == errtag(ErrAgentClosed) && gmap(ev_errv)[n] == errval(ErrAgentClosed)
 
-//@ func (*Agent).Close
+//@ func (*Agent).Close(a)
 //@   safety C13 C14 C10
 //@   props C13 C14 C10
 //@   callsunderlock
@@ -1045,7 +1045,7 @@ package stun
 //@   |      && vpos(ValueLens(m), i + 1) == vpos(ValueLens(m), i) + 4 + pad4(len(m.Attributes[i].Value))
 //@   |      && (region(m.Attributes[i].Value) != region(m.Raw) || off(m.Attributes[i].Value) == off(m.Raw) + vpos(ValueLens(m), i) + 4))
 
-//@ func (*Message).WriteAttributes
+//@ func (*Message).WriteAttributes(m)
 //@   safety C03 C08
 //@   props C03 C08
 //@   requires EncodeOK(m) && m.Length == 0 && len(m.Raw) == 20 && region(m.Attributes) != 0
@@ -1073,7 +1073,7 @@ package stun
 //@     invariant forall(k, 0, rangeindex + 1, attributes[k].Type == loopold(attributes[k].Type) && attributes[k].Length == loopold(len(attributes[k].Value)) && len(attributes[k].Value) == loopold(len(attributes[k].Value)))
 //@     decreases len(attributes) - rangeindex
 
-//@ func (*Message).Encode
+//@ func (*Message).Encode(m)
 //@   safety C03 C08
 //@   props C03 C08
 //@   requires EncodeOK(m) && TypeOK(m) && region(m.Attributes) != 0
@@ -1086,7 +1086,7 @@ package stun
 //@   ensures forall(k, 0, len(m.Attributes), m.Attributes[k].Type == old(m.Attributes[k].Type) && m.Attributes[k].Length == old(len(m.Attributes[k].Value)) && len(m.Attributes[k].Value) == old(len(m.Attributes[k].Value)))
 //@   ensures region(m.Raw) == old(region(m.Raw)) || fresh(m.Raw)
 
-//@ func Build
+//@ func Build(setters)
 //@   safety C03 C09
 //@   props C03 C09
 //@   requires ghost(setter_failed) == 0 && forall(i, 0, len(setters), setters[i] != nil)
@@ -1096,25 +1096,25 @@ package stun
 //@   ensures result1 == nil ==> result0 != nil && fresh(result0) && Built(result0)
 //@   ensures result1 != nil ==> result0 == nil && ghost(setter_err_tag) == errtag(result1) && ghost(setter_err_val) == errval(result1)
 
-//@ func (*Message).NewTransactionID
+//@ func (*Message).NewTransactionID(m)
 //@   safety C03
 //@   props C03
 //@   requires m != nil && cap(m.Raw) >= 20
 //@   assigns m.TransactionID, m.Raw[8:20]
 //@   ensures result == nil ==> forall(j, 0, 12, m.Raw[8+j] == m.TransactionID[j])
 
-//@ func Message.MarshalBinary
+//@ func Message.MarshalBinary(m)
 //@   safety C08
 //@   props C08
 //@   pure
 //@   allocates
 //@   ensures result1 == nil && fresh(result0) && bytes_eq(result0, m.Raw)
 
-//@ func writeOrPanic
+//@ func writeOrPanic(w, v)
 //@   transparent
 
 // RFC 5389 section 15.4: long-term key = MD5(username ":" realm ":" password); short-term key = password.
-//@ func NewLongTermIntegrity
+//@ func NewLongTermIntegrity(username, realm, password)
 //@   safety C04
 //@   props C04
 //@   assigns gmap(hstate)
@@ -1122,7 +1122,7 @@ package stun
 //@   ensures len(result) == 16 && fresh(result)
 //@   ensures forall(j, 0, 16, result[j] == digbyte(3, seqapp(0, strdata(strcat(strcat(strcat(strcat(username, ":"), realm), ":"), password))), j))
 
-//@ func NewShortTermIntegrity
+//@ func NewShortTermIntegrity(password)
 //@   safety C04
 //@   props C04
 //@   pure
@@ -1135,7 +1135,7 @@ package stun
 //@ define PairwiseEq(a, b) = len(a) == len(b) && forall(k, 0, len(a), a[k].Type == b[k].Type && a[k].Length == b[k].Length && len(a[k].Value) == len(b[k].Value))
 //@   | && forall(k, 0, len(a), bytes_eq(a[k].Value, b[k].Value))
 
-//@ func RawAttribute.Equal
+//@ func RawAttribute.Equal(a, b)
 //@   safety C03
 //@   props C03
 //@   pure
@@ -1145,7 +1145,7 @@ package stun
 //@     invariant -1 <= rangeindex && forall(j, 0, rangeindex + 1, b.Value[j] == a.Value[j])
 //@     decreases len(a.Value) - rangeindex
 
-//@ func attrSliceEqual
+//@ func attrSliceEqual(a, b)
 //@   safety C03
 //@   props C03
 //@   pure
@@ -1158,14 +1158,14 @@ package stun
 //@     invariant PairwiseEq(a, b) ==> rangeindex1 < rangeindex0 + 1
 //@     decreases len(b) - rangeindex1
 
-//@ func attrEqual
+//@ func attrEqual(attrA, attrB)
 //@   safety C03
 //@   props C03
 //@   pure
 //@   ensures PairwiseEq(attrA, attrB) ==> result
 //@   ensures len(attrA) != len(attrB) ==> !result
 
-//@ func (*Message).Equal
+//@ func (*Message).Equal(m, msg)
 //@   safety C03
 //@   props C03
 //@   pure
@@ -1175,26 +1175,26 @@ package stun
 
 // ---- URI layer (C16, C17). net/url, net and strconv are trusted (spec/40_uri.spec); strings are abstract values. ----
 
-//@ func NewSchemeType
+//@ func NewSchemeType(raw)
 //@   safety C16 C17
 //@   props C17
 //@   pure
 //@   ensures result == SchemeOf(raw)
 
-//@ func SchemeType.String
+//@ func SchemeType.String(t)
 //@   safety C17
 //@   props C17
 //@   pure
 //@   allocates
 //@   ensures 1 <= t && t <= 4 ==> result == SchemeStr(t)
 
-//@ func NewProtoType
+//@ func NewProtoType(raw)
 //@   safety C16 C17
 //@   props C17
 //@   pure
 //@   ensures result == ProtoOf(raw)
 
-//@ func ProtoType.String
+//@ func ProtoType.String(t)
 //@   safety C17
 //@   props C17
 //@   pure
@@ -1202,7 +1202,7 @@ package stun
 //@   ensures 1 <= t && t <= 2 ==> result == ProtoStr(t)
 
 // parseProto: the transport named by a turn/turns query. 0 (unknown) only when the query has no keys at all.
-//@ func parseProto
+//@ func parseProto(raw)
 //@   safety C16 C17
 //@   props C17
 //@   pure
@@ -1217,7 +1217,7 @@ package stun
 // parsers report about raw: known scheme, host and port split (with the scheme's default port appended when
 // the authority has none), non-empty host, numeric port within 0-65535, and the transport rules.
 //@ define Authority(raw) = ite(shp_ok(url_opaque(raw)), url_opaque(raw), strcat(url_opaque(raw), DefPortSuffix(SchemeOf(url_scheme(raw)))))
-//@ func ParseURI
+//@ func ParseURI(raw)
 //@   safety C16 C17
 //@   props C16 C17
 //@   pure
@@ -1242,7 +1242,7 @@ package stun
 //@   ensures url_ok(raw) && SchemeOf(url_scheme(raw)) == 0 ==> result1 == ErrSchemeType
 
 // URI.String: scheme ":" JoinHostPort(host, Itoa(port)) [ "?transport=" proto ]
-//@ func URI.String
+//@ func URI.String(u)
 //@   safety C17
 //@   props C17
 //@   pure
@@ -1250,7 +1250,7 @@ package stun
 //@   ensures (u.Scheme == 1 || u.Scheme == 2) ==> result == strcat(strcat(SchemeStr(u.Scheme), ":"), jhp(u.Host, itoa(u.Port)))
 //@   ensures (u.Scheme == 3 || u.Scheme == 4) && (u.Proto == 1 || u.Proto == 2) ==> result == strcat(strcat(strcat(SchemeStr(u.Scheme), ":"), jhp(u.Host, itoa(u.Port))), strcat("?transport=", ProtoStr(u.Proto)))
 
-//@ func URI.IsSecure
+//@ func URI.IsSecure(u)
 //@   safety C17
 //@   props C17
 //@   pure
@@ -1271,7 +1271,7 @@ package stun
 //@ func Collector.Start(a, rate, f)
 //@   pure
 //@   allocates
-//@ func NewClient
+//@ func NewClient(conn, options)
 //@   safety C10 C15 C17
 //@   props C10 C15 C17
 //@   requires forall(i, 0, len(options), options[i] != nil)
@@ -1297,7 +1297,7 @@ package stun
 //@ define DialWas(network, uri) = gmap(dial_net)[old(ghost(dial_n))] == network && gmap(dial_addr)[old(ghost(dial_n))] == old(Addr(uri))
 //@ define WrapWas(kind, uri) = gmap(wrap_kind)[old(ghost(wrap_n))] == kind && gmap(wrap_sni)[old(ghost(wrap_n))] == old(uri.Host) && gmap(wrap_inner)[old(ghost(wrap_n))] == gmap(dial_conn)[old(ghost(dial_n))]
 //@ define Supported(s, p) = s == 1 || s == 3 || (s == 4 && p == 1) || ((s == 2 || s == 4) && p == 2)
-//@ func DialURI
+//@ func DialURI(uri, cfg)
 //@   safety C17
 //@   props C17
 //@   requires uri != nil && cfg != nil
@@ -1335,7 +1335,7 @@ package stun
 //@ define FeLog(a, t, hi) = forall(e, old(ghost(fe_n)), ghost(fe_n), off(a) <= gmap(fe_seq)[e] && gmap(fe_seq)[e] < off(a) + hi
 //@   |   && a[gmap(fe_seq)[e] - off(a)].Type == t && gmap(fe_len)[e] == len(a) - (gmap(fe_seq)[e] - off(a)))
 //@   | && forall(e, old(ghost(fe_n)), ghost(fe_n) - 1, gmap(fe_seq)[e] < gmap(fe_seq)[e + 1])
-//@ func (*Message).ForEach
+//@ func (*Message).ForEach(m, t, f)
 //@   safety C02
 //@   props C02
 //@   requires m != nil && f != nil
@@ -1367,7 +1367,7 @@ package stun
 //@ define TableExcept(c, id) = forallkey(k, k != id ==> ((haskey(c.t, k) <==> old(haskey(c.t, k))) && (haskey(c.t, k) ==> c.t[k] == old(c.t[k]))))
 
 // once-guard: the handler runs on the first call only
-//@ func (*clientTransaction).handle
+//@ func (*clientTransaction).handle(t, e)
 //@   safety C10 C12
 //@   props C10 C12
 //@   requires t != nil && t.h != nil && 0 <= t.calls && t.calls < 2147483647
@@ -1377,14 +1377,14 @@ package stun
 //@   ensures old(t.calls) != 0 ==> NoEvent()
 
 // k-th deadline: now + (attempt+1) * rto
-//@ func (*clientTransaction).nextTimeout
+//@ func (*clientTransaction).nextTimeout(t, now)
 //@   safety C11
 //@   props C11
 //@   pure
 //@   requires t != nil && 0 <= t.attempt && t.attempt < 2147483647
 //@   ensures result == now + (t.attempt + 1) * t.rto
 
-//@ func putClientTransaction
+//@ func putClientTransaction(t)
 //@   safety C10 C11 C12
 //@   props C12
 //@   requires t != nil
@@ -1392,7 +1392,7 @@ package stun
 //@   ensures len(t.raw) == 0 && t.attempt == 0
 
 // start: register t under its id unless the client is closed (checked first) or the id is taken
-//@ func (*Client).start
+//@ func (*Client).start(c, t)
 //@   safety C10 C15
 //@   props C10 C15
 //@   requires ClientInv(c) && t != nil
@@ -1402,7 +1402,7 @@ package stun
 //@   ensures !old(c.closed) && old(haskey(c.t, t.id)) ==> result == ErrTransactionExists && SameClientTable(c)
 //@   ensures !old(c.closed) && !old(haskey(c.t, t.id)) ==> result == nil && haskey(c.t, t.id) && c.t[t.id] == t && TableExcept(c, t.id)
 
-//@ func (*Client).delete
+//@ func (*Client).delete(c, id)
 //@   safety C10 C15
 //@   props C10
 //@   requires ClientInv(c)
@@ -1424,7 +1424,7 @@ package stun
 //@   ensures ghost(wr_n) == old(ghost(wr_n)) + 1 && Wrote(old(ghost(wr_n)), p)
 //@   ensures gmap(wr_errt)[old(ghost(wr_n))] == errtag(result1) && gmap(wr_errv)[old(ghost(wr_n))] == errval(result1)
 
-//@ func (*Message).WriteTo
+//@ func (*Message).WriteTo(m, w)
 //@   safety C10 C11 C15
 //@   props C11
 //@   requires m != nil && w != nil
@@ -1468,7 +1468,7 @@ package stun
 //@   allocates
 //@   resulttype *clientTransaction
 //@   ensures result != nil && fresh(result) && (fresh(result.raw) || region(result.raw) == 0) && 0 <= len(result.raw) && len(result.raw) <= cap(result.raw)
-//@ func acquireClientTransaction
+//@ func acquireClientTransaction()
 //@   safety C10 C11 C12
 //@   props C12
 //@   pure
@@ -1480,7 +1480,7 @@ package stun
 //@   resulttype *buffer
 //@   ensures result != nil && fresh(result) && (fresh(result.buf) || region(result.buf) == 0) && 0 <= len(result.buf) && len(result.buf) <= cap(result.buf)
 
-//@ func (*Client).checkInit
+//@ func (*Client).checkInit(c)
 //@   safety C10 C15
 //@   props C15
 //@   pure
@@ -1495,7 +1495,7 @@ package stun
 //@ define LastWriteErr() = gmap(wr_errt)[ghost(wr_n) - 1] != 0
 
 //@ define Init(c) = c != nil && c.c != nil && c.a != nil && c.close != nil
-//@ func (*Client).Start
+//@ func (*Client).Start(c, msg, handler)
 //@   safety C10 C11 C15
 //@   props C10 C15
 //@   requires msg != nil && (c == nil || ClientReady(c))
@@ -1530,7 +1530,7 @@ package stun
 //                           exactly one write carrying exactly T.raw; if any step fails: removed and T's handler invoked once with that error
 //@ define Completes(c, event) = old(c.closed) || old(c.maxAttempts) <= old(c.t[event.TransactionID].attempt) || event.Error == nil
 //@ define EvLogged(k, id, h) = gmapa(ev_tid)[k] == id && gmap(ev_h)[k] == h
-//@ func (*Client).handleAgentCallback
+//@ func (*Client).handleAgentCallback(c, event)
 //@   safety C10 C11 C12 C15
 //@   props C10 C12
 //@   requires ClientReady(c) && c.c != nil && c.a != nil
@@ -1568,7 +1568,7 @@ package stun
 //@   assigns everything, gmap(held), ghost(now_last), ghost(wr_n), gmapa(wr_data), gmap(wr_len), gmap(wr_errt), gmap(wr_errv), ghost(ag_n), gmap(ag_op), gmapa(ag_id), gmap(ag_dl), gmap(ag_errt), gmap(ag_errv), ghost(ev_n), gmapa(ev_tid), gmap(ev_errt), gmap(ev_errv), gmap(ev_msg), gmap(ev_h)
 //@   allocates
 //@   ensures c.c == old(c.c) && c.a == old(c.a) && region(m.Raw) == old(region(m.Raw)) && cap(m.Raw) == old(cap(m.Raw)) && off(m.Raw) == old(off(m.Raw))
-//@ func (*Client).readUntilClosed
+//@ func (*Client).readUntilClosed(c)
 //@   safety C12 C15
 //@   props C12
 //@   requires c != nil && c.c != nil && c.a != nil
@@ -1605,7 +1605,7 @@ package stun
 
 //@ define Closes(coll, agent, conn, waits) = ghost(coll_closes) == old(ghost(coll_closes)) + coll && ghost(agent_closes) == old(ghost(agent_closes)) + agent
 //@   | && ghost(conn_closes) == old(ghost(conn_closes)) + conn && ghost(wg_waits) == old(ghost(wg_waits)) + waits
-//@ func (*Client).Close
+//@ func (*Client).Close(c)
 //@   safety C15 C10
 //@   props C15
 //@   requires c == nil || (ClientReady(c) && (c.closed || gmap(chclosed)[c.close] == 0))
@@ -1621,7 +1621,7 @@ package stun
 //@   ensures c != nil && result == nil ==> Closes(1, 1, ite(old(c.closeConn), 1, 0), 1) && gmap(chclosed)[c.close] == 1 && c.closed
 //@   ensures result != nil && result != ErrClientNotInitialized && result != ErrClientClosed && ghost(agent_closes) != old(ghost(agent_closes)) ==> errtag(result) == typeid("CloseErr")
 
-//@ func (*Client).Indicate
+//@ func (*Client).Indicate(c, m)
 //@   safety C10 C15
 //@   props C15
 //@   requires m != nil && (c == nil || ClientReady(c))
@@ -1631,7 +1631,7 @@ package stun
 //@   ensures c == nil || c.c == nil || c.a == nil || c.close == nil ==> result == ErrClientNotInitialized && Writes(0)
 //@   ensures c != nil && c.c != nil && c.a != nil && c.close != nil && old(c.closed) ==> result == ErrClientClosed && Writes(0) && SameClientTable(c)
 
-//@ func (*Client).SetRTO
+//@ func (*Client).SetRTO(c, rto)
 //@   safety C11 C15
 //@   props C11
 //@   requires c != nil
@@ -1639,7 +1639,7 @@ package stun
 //@   ensures c.rto == rto
 
 // option usable only while the client is being built (NewClient applies options before the client is shared)
-//@ func WithNoRetransmit
+//@ func WithNoRetransmit(c)
 //@   safety C15
 //@   props C11
 //@   constructs
@@ -1657,7 +1657,7 @@ package stun
 //@   assigns ghost(ev_n), gmapa(ev_tid)[ghost(ev_n)], gmap(ev_errt)[ghost(ev_n)], gmap(ev_errv)[ghost(ev_n)], gmap(ev_msg)[ghost(ev_n)], gmap(ev_h)[ghost(ev_n)]
 //@   ensures ghost(ev_n) == old(ghost(ev_n)) + 1 && gmapa(ev_tid)[old(ghost(ev_n))] == e.TransactionID
 //@   ensures gmap(ev_errt)[old(ghost(ev_n))] == errtag(e.Error) && gmap(ev_errv)[old(ghost(ev_n))] == errval(e.Error) && gmap(ev_msg)[old(ghost(ev_n))] == region(e.Message)
-//@ func (*callbackWaitHandler).HandleEvent
+//@ func (*callbackWaitHandler).HandleEvent(s, e)
 //@   safety C10
 //@   props C10
 //@   callsunderlock
@@ -1665,7 +1665,7 @@ package stun
 //@   assigns s.processed, gmap(held)[errval(s.cond.L)], ghost(ev_n), gmapa(ev_tid)[ghost(ev_n)], gmap(ev_errt)[ghost(ev_n)], gmap(ev_errv)[ghost(ev_n)], gmap(ev_msg)[ghost(ev_n)], gmap(ev_h)[ghost(ev_n)]
 //@   ensures s.processed && gmap(held)[errval(s.cond.L)] == 0 && OneEvent(e.TransactionID, e.Error)
 
-//@ func (*callbackWaitHandler).setCallback
+//@ func (*callbackWaitHandler).setCallback(s, f)
 //@   safety C10
 //@   props C10
 //@   requires CwhOK(s) && f != nil && gmap(held)[errval(s.cond.L)] == 0
@@ -1682,7 +1682,7 @@ package stun
 //@   requires gmap(held)[errval(l)] == 0
 //@   assigns gmap(held)[errval(l)], ghost(cwh_waits)
 //@   ensures gmap(held)[errval(l)] == 1 && ghost(cwh_waits) == old(ghost(cwh_waits)) + 1
-//@ func (*callbackWaitHandler).wait
+//@ func (*callbackWaitHandler).wait(s)
 //@   safety C10
 //@   props C10
 //@   requires CwhOK(s) && gmap(held)[errval(s.cond.L)] == 0
@@ -1698,7 +1698,7 @@ package stun
 //@   allocates
 //@   resulttype *callbackWaitHandler
 //@   ensures result != nil && fresh(result) && CwhOK(result) && !result.processed && result.callback == nil && gmap(held)[errval(result.cond.L)] == 0
-//@ func (*Client).Do
+//@ func (*Client).Do(c, m, f)
 //@   safety C10 C15
 //@   props C10 C15
 //@   requires m != nil && (c == nil || ClientReady(c))
